@@ -291,4 +291,23 @@ def flows_from(body, origins, pred, depth=8, _seen=None):
             for a in cs.args():
                 if flows_from(body, body.origins(a, cs), pred, depth - 1, _seen):
                     return True
+        for a in _origin_aggs(o):
+            if a in _seen:
+                continue
+            _seen.add(a)
+            s = Site(body, a[1], a[2])
+            for op in s.node["r"]["ops"]:
+                if flows_from(body, body.origins(op, s), pred, depth - 1, _seen):
+                    return True
     return False
+
+
+def _origin_aggs(o):
+    out = []
+    if isinstance(o, tuple):
+        if o and o[0] == "agg":
+            out.append(o)
+        for x in o:
+            if isinstance(x, tuple):
+                out.extend(_origin_aggs(x))
+    return out
